@@ -18,6 +18,6 @@ Definition model_run_streaming (al : alpha) (s : stream) : list obs :=
 
 Extraction Language OCaml.
 Extraction "transfac_model.ml"
-  byte_of_N byte_to_N model_run model_run_streaming chunk_by
+  byte_of_N byte_to_N model_run model_run_streaming
   check_c14 check_c15 first_diff obs_eqb observe_record
   print_file expected_record wf_file f32_bits_of_token.
